@@ -30,6 +30,18 @@ func C06(o *world.Obs) *Result {
 				// a response that must not be stored
 				ex := o.Exchanges[c.Ex]
 				if !HasClientConditional(ex.Req) {
+					// ... unless storing is forbidden for this very exchange: the 304 carries
+					// no-store itself, or answers a request that does
+					switch {
+					case model.ParseCC(c.RespHdr).Has["no-store"]:
+						fs = append(fs, forbidden{c, "304-with-no-store"})
+						r.NonTrivial = true
+						r.Label("forbidden:304-with-no-store")
+					case model.ParseCC(ReqHeader(ex.Req)).Has["no-store"]:
+						fs = append(fs, forbidden{c, "304-to-no-store-request"})
+						r.NonTrivial = true
+						r.Label("forbidden:304-to-no-store-request")
+					}
 					continue
 				}
 				ch := ReqHeader(ex.Req)
@@ -63,6 +75,25 @@ func C06(o *world.Obs) *Result {
 			if bytes.Contains(op.Val, tok) || bytes.Contains(op.Val, hdrTok) || bytes.Contains(op.Val, valTok) || bytes.Contains(op.Val, mark) {
 				r.Fail("C06", "stored:"+f.reason, f.c.Ex, "reply s%d (status %d, %s) must not be stored, but a Set for key %q carries its token; %s",
 					f.c.Serial, f.c.Status, f.reason, op.Key, SummarizeExchange(o, o.Exchanges[max(f.c.Ex, 0)]))
+				break
+			}
+		}
+	}
+	// (1b) nothing at all is written for it: an exchange whose only origin reply must not be
+	// stored performs no successful Set on the caller's goroutine (not even of an index that
+	// would describe the reply: its Vary value, the request's nominated fields, its Date)
+	for _, f := range fs {
+		if f.c.Status == http.StatusNotModified || !f.c.Fg || f.c.Ex < 0 {
+			continue
+		}
+		ex := o.Exchanges[f.c.Ex]
+		if len(o.FgCalls(ex)) != 1 {
+			continue
+		}
+		for _, op := range o.Ops {
+			if op.Op == "set" && op.Err == "" && op.Ex == ex.Idx && op.Gid == ex.Gid {
+				r.Fail("C06", "stored-index:"+f.reason, ex.Idx, "reply s%d (status %d, %s) must not be stored, yet the exchange writes key %q (%d bytes); %s",
+					f.c.Serial, f.c.Status, f.reason, op.Key, len(op.Val), SummarizeExchange(o, ex))
 				break
 			}
 		}
